@@ -101,7 +101,7 @@ def run(ctx):
         kind = rng.choice(["BTree", "TreeSet", "Bucket", "Set", "BTree"])
         fn = rng.choice(ALL_FAMS)
         sz = rng.choice([(2, 2), (3, 3), (4, 4), (2, 3), None])
-        mode = rng.choice({"O": ["int", "str"]}.get(fn[0], [None, "extreme"] if fn != "fs" else [None]))
+        mode = rng.choice({"O": ["int", "str"]}.get(fn[0], [None, "extreme"]))
         envs = {impl: TreeEnv(fn, kind, impl, mode) for impl in ("C", "Py")}
         # both implementations must use the very same key/value objects
         envs["Py"].km, envs["Py"].vm = envs["C"].km, envs["C"].vm
@@ -120,6 +120,44 @@ def run(ctx):
                 bad = None
                 if res["C"] != res["Py"] and c[0] != "update":
                     bad = ("result", c[0], res["C"], res["Py"])
+                # ---- a range view, indexed inside and outside its bounds (positive and negative), side by side
+                if bad is None and rng.random() < 0.2:
+                    meth = rng.choice(["keys"] if setlike else ["keys", "values", "items"])
+                    lo_k = None if rng.random() < 0.3 else envs["C"].k(rng.randrange(u))
+                    hi_k = None if rng.random() < 0.3 else envs["C"].k(rng.randrange(u))
+                    exmin, exmax = rng.random() < 0.4, rng.random() < 0.4
+
+                    def view_probe(t):
+                        try:
+                            seq = getattr(t, meth)(lo_k, hi_k, exmin, exmax)
+                            n = len(seq)
+                            out = [n]
+                            for ix in (0, 1, -1, n - 1, n, n + 1, -n, -n - 1, -n - 2, -n - 7, n + 7):
+                                try:
+                                    out.append(repr(seq[ix]))
+                                except Exception as e:  # noqa
+                                    out.append(type(e).__name__)
+                            return out
+                        except Exception as e:  # noqa
+                            return [type(e).__name__]
+
+                    def minmax_probe(t):        # without a bound, also on an empty container
+                        out = []
+                        for nm in ("minKey", "maxKey"):
+                            try:
+                                out.append(repr(getattr(t, nm)()))
+                            except Exception as e:  # noqa
+                                out.append(type(e).__name__)
+                        return out
+                    mm = {impl: minmax_probe(ts[impl]) for impl in ("C", "Py")}
+                    if mm["C"] != mm["Py"]:      # reported, but the history goes on (finding F41 would end every history that empties a bucket)
+                        ctx.oracle_failure("C-vs-Py:%s:minKey-maxKey-without-bound:%s" % (kind, "empty" if not len(ts["C"]) else "non-empty"),
+                                           "%s%s sizes=%s after call #%d %r: minKey() / maxKey() without a bound: C %r, Python %r" % (fn, kind, (ml, mi), i, c, mm["C"], mm["Py"]),
+                                           {"family": fn, "kind": kind, "mode": mode, "sizes": [ml, mi], "calls": calls[:i + 1], "difference": repr(mm)})
+                    vp = {impl: view_probe(ts[impl]) for impl in ("C", "Py")}
+                    stats["range_view_index_probes"] = stats.get("range_view_index_probes", 0) + 1
+                    if bad is None and vp["C"] != vp["Py"]:
+                        bad = ("range-view-index", meth, vp["C"], vp["Py"], repr((lo_k, hi_k, exmin, exmax)))
                 # ---- an out-of-domain call
                 if bad is None and rng.random() < 0.35:
                     role = rng.choice(["key", "value"]) if not setlike else "key"
